@@ -342,7 +342,7 @@ fn caller(p: &Plan) -> Obs {
     };
     let url = if p.route == Route::Plain { format!("http://{}/hop0", host) } else { "https://secure.test/hop0".to_string() };
     o.start = attosim::now_ns();
-    let t_in = o.start;
+    let mut t_in = o.start;
     let res = if p.fam == Family::UploadStall {
         let mut rb = attohttpc::post(&url).bytes(vec![b'u'; p.upload]).read_timeout(Duration::from_millis(p.r_ms));
         if let Some(t) = p.t_ms {
@@ -388,7 +388,21 @@ fn caller(p: &Plan) -> Obs {
         } else {
             rb = rb.proxy_settings(attohttpc::ProxySettings::builder().build());
         }
-        rb.send()
+        // (no draw) prepared first and sent later: the clock of a request starts when it is sent
+        if (p.r_ms + p.body.payload.len() as u64) % 4 == 1 {
+            let mut prepared = rb.prepare();
+            // ... for a while that is short, or comparable to the overall timeout, or longer than it
+            let wait_ms = match p.t_ms {
+                Some(t) if t < 1_000_000_000 => [1, t / 2, t * 9 / 10, t * 2][(p.r_ms as usize + p.body.payload.len() / 4) % 4].max(1),
+                _ => 1 + (p.r_ms % 7) * 700,
+            };
+            attosim::sleep_ns(wait_ms * NS_PER_MS);
+            o.start = attosim::now_ns();
+            t_in = o.start;
+            prepared.send()
+        } else {
+            rb.send()
+        }
     };
     let t_out = attosim::now_ns();
     let mut resp = match res {
@@ -411,8 +425,16 @@ fn caller(p: &Plan) -> Obs {
     let mut i = 0usize;
     let mut ended = false;
     let mut after = 0usize;
+    // (no draw) in some plans the last call after the end of the body is one of the consuming helpers instead
+    // of another `read`: same response, same end of body, another code path to it
+    let helper_last = p.rereads >= 1 && (p.rereads + sizes.len() + p.body.payload.len()) % 3 == 0;
+    let mut use_helper = false;
     loop {
         if p.drop_after_calls == Some(i) {
+            break;
+        }
+        if ended && helper_last && after + 1 == p.rereads {
+            use_helper = true;
             break;
         }
         if let Some((_, ms)) = p.think.iter().find(|(at, _)| *at == i) {
@@ -455,6 +477,31 @@ fn caller(p: &Plan) -> Obs {
         if i > 200_000 {
             break;
         }
+    }
+    if use_helper {
+        let t_in = attosim::now_ns();
+        let which = (p.body.payload.len() / 3) % 3;
+        let r: Result<usize, attohttpc::Error> = match which {
+            0 => resp.bytes().map(|v| v.len()),
+            1 => resp.text_utf8().map(|s| s.len()),
+            _ => {
+                let mut sink = Vec::new();
+                resp.write_to(&mut sink).map(|_| sink.len())
+            }
+        };
+        let t_out = attosim::now_ns();
+        let res = match r {
+            Ok(n) => Ok(n),
+            Err(e) => Err(match e.kind() {
+                attohttpc::ErrorKind::Io(io) => format!("Io({:?})", io.kind()),
+                _ => format!("Io(Other<{}>)", err_kind(&e)),
+            }),
+        };
+        o.calls.push(Call { what: "read", size: 8192, t_in, t_out, res });
+        // the helper consumed (and dropped) the response
+        o.t_drop = attosim::now_ns();
+        o.drop_took = 0;
+        return o;
     }
     let t_before_drop = attosim::now_ns();
     drop(resp);
